@@ -66,6 +66,11 @@ let set_chunk_params par =
   let p = z_of_n par in
   chunk_params := Z.to_string (Z.add (Z.of_int 7) p) ^ ":" ^ Z.to_string (Z.add (Z.of_int 11) (Z.shift_left p 33))
 
+(* the second script token: bit 0 = Suspend() answer, bit 1 = RequestChunks returns an error in
+   that run.  session.go discards that error (`_ = d.callback.RequestChunks(...)`, totalRequested
+   is advanced before the call), so the model has no input for it *)
+let susp_of_tok s = (int_of_string s) land 1 = 1
+
 let tok_of_pev = function
   | PDone b -> "D" ^ tok_of_bool b
   | PIsProc (id, b) -> "I" ^ tok_of_n id ^ ":" ^ tok_of_bool b
@@ -230,7 +235,7 @@ let eval inp obs =
     let par = n_of_tok par in
     set_chunk_params par;
     let rec script k l = if k = 0 then [] else match l with
-      | d :: s :: m :: r -> ((bool_of_tok d, bool_of_tok s), ids_of_mask m) :: script (k - 1) r
+      | d :: s :: m :: r -> ((bool_of_tok d, susp_of_tok s), ids_of_mask m) :: script (k - 1) r
       | _ -> failwith "short script" in
     let sc = script (int_of_string nruns) rest in
     let pops = List.map (function ["c"; id] -> PChunk (n_of_tok id) | ["k"] -> PTick | _ -> failwith "bad peer op") ops in
@@ -258,7 +263,7 @@ let eval inp obs =
       | d :: s :: m :: r ->
         let low = List.map (fun x -> Z.to_int (z_of_n x)) (ids_of_mask m) in
         let ids = List.concat (List.init (nops + 1) (fun op -> List.map (fun i -> n_of_z (Z.of_int (op * 16 + i))) low)) in
-        ((bool_of_tok d, bool_of_tok s), ids) :: script (k - 1) r
+        ((bool_of_tok d, susp_of_tok s), ids) :: script (k - 1) r
       | _ -> failwith "short script" in
     let sc = script (int_of_string nruns) rest in
     (* split the implementation's log into routine runs and X markers (external Terminate) *)
